@@ -14,6 +14,10 @@ PANIC = "pyo3_runtime.PanicException"
 THROWS = [
     ("json.loads", ["json.JSONDecodeError", "UnicodeDecodeError", "ValueError", "RecursionError"], None),
     ("json.dumps", [], None),
+    ("dict_keys.isdisjoint", [], None), ("dict_keys.__and__", [], None),
+    ("datetime.datetime.fromtimestamp", ["OverflowError", "ValueError", "OSError"], None),
+    ("datetime.datetime.utcfromtimestamp", ["OverflowError", "ValueError", "OSError"], None),
+    ("datetime.date.fromtimestamp", ["OverflowError", "ValueError", "OSError"], None),
     ("base64.b64decode", ["binascii.Error"], None),
     ("base64.urlsafe_b64encode", [], None),
     ("base64.urlsafe_b64decode", ["binascii.Error", "ValueError"], None),   # probed: bad padding -> binascii.Error, non-ASCII str -> ValueError
@@ -92,6 +96,7 @@ SILENT_PREFIXES = (
     "cryptography.hazmat.backends.default_backend", "cryptography.hazmat.primitives.hashes.", "cryptography.hazmat.primitives.serialization.NoEncryption",
     "cryptography.hazmat.primitives.asymmetric.ec.ECDH", "cryptography.hazmat.primitives.asymmetric.ec.ECDSA",
     "cryptography.hazmat.primitives.asymmetric.padding.", "hashlib.sha", "attr.", "calendar.", "re.", "datetime.",
+    "logging.", "functools.", "itertools.", "operator.", "abc.",  # logging never propagates handler / formatting errors (logging.raiseExceptions only prints)
 )
 SILENT_SUFFIXES = (
     ".public_key", ".public_numbers", ".private_numbers", ".public_bytes", ".private_bytes", ".digest", ".curve", ".key_size",
